@@ -299,9 +299,9 @@ StreamSendHeaders(ep, c) ==
           \* (the encoder writes its pending table-size updates before it looks at the first field: a block that is
           \* then refused takes them with it)
           IN IF ~pipe.ok
-             THEN CR(Mark(IF pipe.clean /\ ~ep.enc.rz THEN e1 ELSE Dirty(e1), "failed_send_partial_state"), PE)
+             THEN CR(Mark([(IF pipe.clean /\ ~ep.enc.rz THEN e1 ELSE Dirty(e1)) EXCEPT !.enc = EncAfter(@)], "failed_send_partial_state"), PE)
              ELSE LET s2 == IF c.es THEN Process(p.st, "SEND_END_STREAM").st ELSE p.st IN
-                  IF s2.ts /\ ~c.es THEN CR(Mark(Dirty(Put(ep, sid, s2)), "failed_send_partial_state"), PE)
+                  IF s2.ts /\ ~c.es THEN CR(Mark([Dirty(Put(ep, sid, s2)) EXCEPT !.enc = EncAfter(@)], "failed_send_partial_state"), PE)
                   ELSE LET s3 == [s2 EXCEPT !.auth = IF s2.cl = "T" /\ @ = "None" THEN AuthorityOf(c.h) ELSE @,
                                             !.meth = MethodOf(c.h)]
                            \* a reserved (pushed) stream becomes open without any look at the peer's MAX_CONCURRENT_STREAMS
@@ -311,8 +311,8 @@ StreamSendHeaders(ep, c) ==
                            e4 == [(IF Len(EncTsu(ep.enc)) > 1 THEN Mark(e3, "hpack_size_update_intermediate") ELSE e3)
                                      EXCEPT !.enc = EncAfter(@)]
                        IN IF ~PrioPresent(c.pr) THEN CR(Emit(e4, <<FHeaders(sid, c.es, pipe.h, <<>>, EncTsu(ep.enc))>>), OK)
-                          ELSE IF ep.role = "s" THEN CR(Mark(Dirty(e3), "failed_send_partial_state"), Exc("RFC1122Error", -1))
-                          ELSE IF PrioBad(sid, c.pr) THEN CR(Mark(Dirty(e3), "failed_send_partial_state"), PE)
+                          ELSE IF ep.role = "s" THEN CR(Mark(Dirty(e4), "failed_send_partial_state"), Exc("RFC1122Error", -1))
+                          ELSE IF PrioBad(sid, c.pr) THEN CR(Mark(Dirty(e4), "failed_send_partial_state"), PE)
                           ELSE CR(Emit(e4, <<FHeaders(sid, c.es, pipe.h, PrioFields(c.pr), EncTsu(ep.enc))>>), OK)
 
 SendHeaders(ep, c) ==
@@ -385,7 +385,7 @@ PushStream(ep, c) ==
        IF p.oc # "ok" THEN CR(Mark(PutR(b.ep, c.sid, p), "failed_send_partial_state"), ExcOf(p.oc))
        ELSE LET pipe == OutPipeline(c.h, "push", ep.cfg.no, ep.cfg.vo)
                 e2 == Put(b.ep, c.sid, p.st)
-            IN IF ~pipe.ok THEN CR(Mark(IF pipe.clean /\ ~ep.enc.rz THEN e2 ELSE Dirty(e2), "failed_send_partial_state"), PE)
+            IN IF ~pipe.ok THEN CR(Mark([(IF pipe.clean /\ ~ep.enc.rz THEN e2 ELSE Dirty(e2)) EXCEPT !.enc = EncAfter(@)], "failed_send_partial_state"), PE)
                ELSE LET q == Process(e2.streams[c.pid], "SEND_PUSH_PROMISE")
                         e5 == IF Len(EncTsu(ep.enc)) > 1 THEN Mark(Put(e2, c.pid, q.st), "hpack_size_update_intermediate")
                               ELSE Put(e2, c.pid, q.st)
@@ -494,11 +494,14 @@ UGt(a, b) == IF (a < 0) = (b < 0) THEN a > b ELSE a < 0       \* unsigned compar
 BigField == 70037          \* RFC 7541 size of the field the harness adds to make a block "big"
 DecodeHP(ep, f) ==
   LET tsu == f.tsu
-      over == \E i \in 1..Len(tsu) : UGt(tsu[i], ep.decMax)
+      bad == {i \in 1..Len(tsu) : UGt(tsu[i], ep.decMax)}
+      over == bad # {}
+      first == IF over THEN CHOOSE i \in bad : \A j \in bad : i <= j ELSE 0
+      sizeBefore == IF first > 1 THEN tsu[first - 1] ELSE ep.decSize          \* the updates in front of the refused one were applied
       size == IF tsu = <<>> THEN ep.decSize ELSE tsu[Len(tsu)]
       listSize == ListSize(f.h) + (IF f.blk = "big" THEN BigField ELSE 0)
   IN IF f.blk = "bad" THEN [x |-> PE, size |-> ep.decSize]
-     ELSE IF over THEN [x |-> PE, size |-> ep.decSize]
+     ELSE IF over THEN [x |-> PE, size |-> sizeBefore]
      ELSE IF ep.hdrCap >= 0 /\ listSize > ep.hdrCap THEN [x |-> Exc("DenialOfServiceError", 11), size |-> size]
      ELSE IF UGt(size, ep.decMax) THEN [x |-> PE, size |-> size]
      ELSE [x |-> OK, size |-> size]
@@ -534,7 +537,7 @@ RecvHeaders(ep, f) ==
       e0 == IF isNew THEN Cleanup(ep) ELSE ep
   IN IF isNew /\ ~WithinConcurrency(CountOpen(e0, 1 - MyParity(ep)), ep.ls) THEN RR(e0, Exc("TooManyStreamsError", 1), <<>>)
      ELSE LET d == DecodeHP(e0, f) IN
-     IF d.x.c # "ok" THEN RR([(IF d.x.c = "ProtocolError" THEN Mark(e0, "hpack_error_code") ELSE e0) EXCEPT !.dl = TRUE], d.x, <<>>)
+     IF d.x.c # "ok" THEN RR([(IF d.x.c = "ProtocolError" THEN Mark(e0, "hpack_error_code") ELSE e0) EXCEPT !.dl = TRUE, !.decSize = d.size], d.x, <<>>)
      ELSE LET c1 == ConnStep([e0 EXCEPT !.decSize = d.size], "RECV_HEADERS") IN
      IF ~c1.ok THEN RR(c1.ep, PE, <<>>)
      ELSE LET g == GetOrCreate(c1.ep, f.sid, 1 - MyParity(ep)) IN
@@ -701,7 +704,7 @@ RecvAltSvc(ep, f) ==
 RecvPushPromise(ep, f) ==
   IF SCur(ep.ls, 2) = 0 THEN RR(ep, PE, <<>>)
   ELSE LET d == DecodeHP(ep, f) IN
-  IF d.x.c # "ok" THEN RR([(IF d.x.c = "ProtocolError" THEN Mark(ep, "hpack_error_code") ELSE ep) EXCEPT !.dl = TRUE], d.x, <<>>)
+  IF d.x.c # "ok" THEN RR([(IF d.x.c = "ProtocolError" THEN Mark(ep, "hpack_error_code") ELSE ep) EXCEPT !.dl = TRUE, !.decSize = d.size], d.x, <<>>)
   ELSE LET c1 == ConnStep([ep EXCEPT !.decSize = d.size], "RECV_PUSH_PROMISE") IN
   IF ~c1.ok THEN RR(c1.ep, PE, <<>>)
   ELSE LET e1 == c1.ep
